@@ -15,3 +15,20 @@ Proof. exact hassh_preimage. Qed.
 (* host keys: the mpints inside the public key blob are the RFC 4251 mpints (so the hashed blob is the RFC 4253 blob) *)
 Theorem C16_blob_mpints : forall z, 0 <= z -> zlen (mpint_payload z) < 4294967296 -> compose_ssh_mpint z = Ok (enc_mpint z).
 Proof. exact compose_ssh_mpint_is_spec. Qed.
+
+(* ECDSA host keys: the blob that is hashed carries the point in 1 + 2 * size octets whatever the coordinates (leading zero
+   octets are part of the wire form, RFC 5656 3.1 / SEC 1 2.3.3), and the two coordinates sit at fixed positions *)
+Theorem C16_ec_point_fixed_width : forall size x y,
+  0 <= x < 256 ^ Z.of_nat size -> 0 <= y < 256 ^ Z.of_nat size ->
+  zlen (enc_ec_point size x y) = 1 + 2 * Z.of_nat size /\
+  (exists r, enc_ec_point size x y = z2b 4 :: r /\ be_val (firstn size r) = x /\ be_val (skipn size r) = y).
+Proof. exact ec_point_fixed_width. Qed.
+
+(* ... and the blob decodes, whatever follows, to the key-type name, the curve identifier and that point *)
+Theorem C16_ecdsa_blob_decodes : forall ident size x y s,
+  zlen ident < 4294967000 -> Z.of_nat size < 1000000 ->
+  exists r1 r2,
+    dec_string (enc_ecdsa_blob ident size x y ++ s) = Some ((name_ecdsa_prefix ++ ident)%list, r1) /\
+    dec_string r1 = Some (ident, r2) /\
+    dec_string r2 = Some (enc_ec_point size x y, s).
+Proof. exact ecdsa_blob_decodes. Qed.
